@@ -29,7 +29,7 @@ def _clauses(xs):
 
 
 class Loop:
-    def __init__(self, invariant=(), decreases=None, name=None, proof_end=None, proof_start=None, iter_suffix='', invariant_except_break=(), ensures=()):
+    def __init__(self, invariant=(), decreases=None, name=None, proof_end=None, proof_start=None, iter_suffix='', invariant_except_break=(), ensures=(), proof_before=None):
         self.invariant = _clauses(invariant)
         self.invariant_except_break = _clauses(invariant_except_break)
         self.ensures = _clauses(ensures)
@@ -38,6 +38,7 @@ class Loop:
         self.proof_end = proof_end
         self.proof_start = proof_start
         self.iter_suffix = iter_suffix
+        self.proof_before = proof_before
 
 
 class Item:
@@ -116,7 +117,7 @@ def source(relpath):
 def apply_rewrites(text, rewrites, where):
     applied = []
     for rw in rewrites:
-        if isinstance(rw, ClosureRw):
+        if isinstance(rw, (ClosureRw, FnRw)):
             new, n = rw.apply(text)
             pat, repl, count = rw.describe(), rw.template(), rw.count
         else:
@@ -128,6 +129,22 @@ def apply_rewrites(text, rewrites, where):
         applied.append({'pattern': pat, 'replacement': repl if isinstance(repl, str) else '<fn>', 'count': n})
         text = new
     return text, applied
+
+
+class FnRw:
+    """A rewrite implemented by a python function text -> (text, n); `doc` states what it does (echoed into the evidence)."""
+
+    def __init__(self, doc, func, count=1):
+        self.doc, self.func, self.count = doc, func, count
+
+    def describe(self):
+        return self.doc
+
+    def template(self):
+        return '<mechanical rewrite: ' + self.doc + '>'
+
+    def apply(self, text):
+        return self.func(text)
 
 
 class ClosureRw:
@@ -458,6 +475,8 @@ def build_fn(item, text, chunks, tagbase):
             raise LostAnchor(f'{where}: loop #{ordinal} not found ({len(loops)} loops)')
         L = loops[ordinal - 1]
         cs = []
+        if lp.proof_before:
+            ins.append((L['kw_start'], [Chunk(lp.proof_before.rstrip() + '\n        ', f'{tagbase}|proof|loop{ordinal}|before')]))
         if L['kind'] == 'for':
             nm = lp.name or f'it_{ordinal}'
             ins.append((L['in_end'], [Chunk(f' {nm}:', f'{tagbase}|body')]))
@@ -540,7 +559,7 @@ def assemble(unit):
     A = Assembled()
     ch = A.chunks
     hdr = getattr(unit, 'HEADER', '')
-    ch.append(Chunk('#![allow(unused, non_snake_case, non_camel_case_types, dead_code)]\n' + hdr + '\nuse vstd::prelude::*;\n' + getattr(unit, 'USES', '') + '\nverus! {\n/// vstd\'s spec set (cedar has its own `Set` type)\npub type SSet<A> = vstd::set::Set<A>;\n', 'hdr'))
+    ch.append(Chunk('#![allow(unused, non_snake_case, non_camel_case_types, dead_code)]\n' + hdr + '\nuse vstd::prelude::*;\nuse vstd::std_specs::iter::IteratorSpec;\nuse std::sync::Arc;\n' + getattr(unit, 'USES', '') + '\nverus! {\n/// vstd\'s spec set (cedar has its own `Set` type)\npub type SSet<A> = vstd::set::Set<A>;\n', 'hdr'))
     for f in getattr(unit, 'STDMODEL', []):
         with open(os.path.join(ROOT, 'stdmodel', f)) as fh:
             ch.append(Chunk(f'// ---- stdmodel/{f} ----\n' + fh.read() + '\n', f'stdmodel|{f}'))
